@@ -60,6 +60,7 @@ def generate(rng, tier):
         ds = [SL.finish_dataset(SL.gen_dataset(rng, "quick", kind=0, offsets=False), cfg["mat"]) for _ in range(rng.choice([1, 2]))]
         for d in ds:
             d["x"] = [abs(v) + 0.05 for v in d["x"]]
+            d["Qmin"] = d["Qmax"] = None        # keep every row: an empty merge has nothing to write
         cases.append({"reingest": True, "cfg": cfg, "datasets": ds, "desc": {"writer": "reingest", "n_datasets": len(ds)}})
     return cases
 
